@@ -236,7 +236,9 @@ func (req *SrvReq) process() {
 
 	verifPoint("process.checked", req)
 	if flushed {
+		// cancelled before it started: answer the flushes, never run it
 		req.Respond()
+		return
 	}
 
 	if rop, ok := (req.Conn.Srv.ops).(SrvReqProcessOps); ok {
